@@ -278,6 +278,7 @@ func (lib *testCaseLibrary) groupTestCases() {
 		svr := serverInstanceForCase(testCase)
 		lib.casesByServer[svr] = append(lib.casesByServer[svr], testCase)
 	}
+	verifOrderCases(lib.casesByServer)
 }
 
 func (lib *testCaseLibrary) allPermutations(clientIsGRPCImpl, serverIsGRPCImpl bool) []*conformancev1.TestCase {
